@@ -138,11 +138,14 @@ def asciiOnly (s : Bytes) : Bool := s.all (· < 128)
 /-- Where the property is judged on the implementation's answers: the domain of the refinement
 theorem, and in addition
   * ASCII host spellings only — the model lower-cases ASCII letters, Go's `strings.ToLower` also maps
-    non-ASCII letters (and replaces invalid UTF-8), so hosts with bytes ≥ 0x80 are outside the model;
+    non-ASCII letters (and replaces invalid UTF-8), so hosts with bytes ≥ 0x80 are outside the model.
+    Only the HOST part of a site address is restricted: `splitHostPath` lower-cases nothing but the host,
+    the path of a site address and the request path are compared byte by byte, so paths with multi-byte
+    UTF-8 characters (`example.com/café`) are inside the judged domain;
   * not an ACME HTTP-challenge request: `serveHTTP` hands `/.well-known/acme-challenge/…` to the
     certificate issuer before (and instead of) the site's handlers; that interception is out of scope. -/
 def judged (sites : List Site) (r : Req) : Bool :=
-  inDomain sites r && asciiOnly r.host && sites.all (fun s => asciiOnly s.key) && !acmePrefix.isPrefixOf r.path
+  inDomain sites r && asciiOnly r.host && sites.all (fun s => asciiOnly (keyHost (vhostOf s.key))) && !acmePrefix.isPrefixOf r.path
 
 def verdict (sites : List Site) (r : Req) (o : Outcome) : String :=
   if !judged sites r then "ok"
